@@ -26,10 +26,10 @@ Definition proper_implies_subtype : Prop :=
   forall ct, wf_ct ct = true -> forall n l r, is_proper_subtype ct n l r = Some true ->
   forall m, defined_true (is_subtype ct m l r).
 
-(* join_upper: PROVED on fragment F1up (Properties.join_upper_partial); meet_lower: PROVED on F1
-   (Properties.meet_lower_partial); simplified_union_equiv: PROVED for F1 atoms (Properties.simplified_union_equiv_partial);
+(* join_upper: PROVED on fragment F1up (Properties.join_upper_partial); meet_lower: REFUTED inside the language
+   (Properties.meet_lower_statement_refuted, contravariant generic + promotion), PROVED on F1 (Properties.meet_lower_partial); simplified_union_equiv: PROVED for F1 atoms (Properties.simplified_union_equiv_partial);
    join_comm_equiv: REFUTED inside the language (Properties.join_comm_equiv_statement_refuted);
-   meet_comm_equiv: NOT PROVED (model = mypy on all pairs (C), searched on real mypy (S)) *)
+   meet_comm_equiv: PROVED on F1 (Properties.meet_comm_equiv_partial) *)
 Definition join_upper : Prop :=
   forall ct, wf_ct ct = true -> forall n s t j, join_types ct n s t = Some j ->
   forall m, defined_true (is_subtype ct m s j) /\ defined_true (is_subtype ct m t j).
